@@ -71,6 +71,8 @@ try:
         print(pid, "rc=%d" % r.returncode, (v[0][:200] if v else r.stderr[-300:] if r.returncode == 2 else ""))
     meta["checks"] = res
     meta["caught_by"] = sorted(p for p, x in res.items() if x["exit"] == 1)
+    meta["caught_at_intake"] = list(meta["caught_by"])
+    meta["target_check_caught_at_intake"] = a.breaks in meta["caught_by"]
     meta["what_was_run"] = "fresh copy of /repo HEAD + patch: baseline suite; demo.py with and without the change; ./check <id> --tier %s with VERIF_REPO=<copy> for %s" % (a.tier, " ".join(checks))
     out = os.path.join("/verif/seeded", a.sid)
     os.makedirs(out, exist_ok=True)
